@@ -23,7 +23,7 @@ SPEC = {
         "encoding/binary Put/Get are modelled arithmetically (Base/Bytes.lean: be64/le64/le32, natBE/natLE); Go panics on short inputs, the model reads what is there - every theorem supplies full-width inputs",
         "int lengths/indices are modelled in Nat (all index expressions occur under guards that make them non-negative)",
         "nil and empty slices are identified",
-        "the text index' unexported documentKey/termKey are compared with the harness' recomputation of the documented layout",
+        "the text index' key functions are exercised through tagged exports (shard/index/text/verif_export.go)",
     ],
     "assumptions": ["strings are byte strings; Go's string order is bytes.Compare (lexLt)", "NaN is outside the property's domain (stated in the property)"],
 }
